@@ -1,4 +1,14 @@
+mod c39;
+mod c41;
+mod c48;
+mod dfexpr;
+mod exprgen;
+mod tape;
+
 fn main() {
-    eprintln!("no sub-commands yet");
-    std::process::exit(2);
+    vf_kit::dispatch! {
+        "c39" => c39::C39,
+        "c41" => c41::C41,
+        "c48" => c48::C48,
+    }
 }
